@@ -268,10 +268,15 @@ import chttp as _chttp
 UNPROVED = UNPROVED + _chttp.UNPROVED_C11
 
 
+import csvfy as _csvfy  # Apple code-signature decision model: CSV ops run as a further correspondence under the pseudo-property C11CSV
+
+
 def run(ctx):
     import runner
-    cov, f, k = ({}, [], []) if _chttp.replay_only_chttp(ctx) else runner.correspondence("C11", ctx, __import__("props.c11", fromlist=["x"]))
-    return _chttp.second(ctx, "C11", "C11CH", cov, f, k)
+    cov, f, k = ({}, [], []) if (_chttp.replay_only_chttp(ctx) or _csvfy.replay_only(ctx)) else \
+        runner.correspondence("C11", ctx, __import__("props.c11", fromlist=["x"]))
+    cov, f, k = _chttp.second(ctx, "C11", "C11CH", cov, f, k)
+    return _csvfy.second(ctx, "C11", "C11CSV", cov, f, k)
 
 
 _gen_c11 = generate
